@@ -48,3 +48,25 @@ func (t *tr) detCall(key string, con *Contract, pos token.Pos) {
 	}
 	t.detViolation("call/"+key, pos, "call of "+key+", whose contract is not flagged deterministic")
 }
+
+// faddrTag gives every interior-address function (one per struct field) a distinct tag, so that the addresses of
+// different fields — of the same or of different struct types — are known to differ.
+var faddrTags = map[string]int{}
+
+func faddrTag(name string) int {
+	if k, ok := faddrTags[name]; ok {
+		return k
+	}
+	// deterministic: a hash of the name (collisions between the handful of names in use are checked)
+	h := 0
+	for _, c := range name {
+		h = (h*131 + int(c)) % 1000003
+	}
+	for _, v := range faddrTags {
+		if v == h {
+			h++
+		}
+	}
+	faddrTags[name] = h
+	return h
+}
